@@ -935,7 +935,9 @@ class Ctx:
                 else:
                     c = self.special_field(f, c, v, idx, pr[2])
             elif k == 'downcast':
-                if isinstance(v, Enum):
+                if isinstance(v, Coroutine):
+                    c = Cell(Struct('(coroutine-variant)', v.variants.setdefault(pr[1], [])))
+                elif isinstance(v, Enum):
                     want = pr[1]
                     if not want.startswith('variant#') and v.vname != want:
                         raise Unsupported('downcast %s on %r in %s' % (want, v, f.name))
